@@ -143,6 +143,10 @@ class Effects:
 UNKNOWN = object()
 
 
+def _isctr(c):
+    return c.split(".")[-1].startswith("_mut_") or c in CFG.get("counters_by_value", [])
+
+
 class Analyzer:
     def __init__(self, classes):
         self.classes = classes
@@ -150,6 +154,7 @@ class Analyzer:
         self.memo = {}
         self.stack = set()
         self.patterns = {}     # (class, cached method) -> {constant call shape: (pattern, env)}
+        self._pm, self._os = {}, {}
 
     def mro(self, cname):
         return c3(cname, self.classes, self.mro_memo)
@@ -599,9 +604,10 @@ class Analyzer:
                     # an uncached method of the owned object: the cached methods IT calls
                     for c, a in self.effects(ocls, oc.name, od, {}).ccalls:
                         eff.ocalls.add((inner, c, a))
-                if f.attr in CFG["owned"][inner].get("mutators", []):
+                osp = self.owned_spec(inner)
+                if f.attr in osp["mutators"]:
                     eff.writes.add(inner + ".content")
-                    for c in CFG["owned"][inner].get("bumps", {}).get(f.attr, []):
+                    for c in osp["bumps"].get(f.attr, []):
                         eff.bumps.add(inner + "." + c)
                 return
             # in-place array methods on fields: self.X.sort() etc.
@@ -610,6 +616,67 @@ class Analyzer:
                 eff.reads.add(inner)
                 return
         self.walk_expr(cname, f, env, eff, selfname)
+
+    # ---- public mutators of a class; owned objects (round 5: derived, not hand-written) ------
+    def public_mutators(self, cname):
+        """name -> write / bump / reset sets of every public method and property setter of the
+        class (by MRO) that writes a field or touches a counter"""
+        if cname in self._pm:
+            return self._pm[cname]
+        self._pm[cname] = {}          # guard against ownership cycles
+        classes = self.classes
+        mro = self.mro(cname)
+        an = self
+        mutators = {}
+        names = set()
+        for c in mro:
+            ci = classes.get(c)
+            if ci is None:
+                continue
+            for n in list(ci.funcs) + ["set:" + s for s in ci.setters]:
+                names.add(n)
+        for n in sorted(names):
+            if n.startswith("set:"):
+                owner, fdef = an.resolve(cname, n[4:], "setters")
+                if n[4:].startswith("_"):
+                    continue
+            else:
+                if n.startswith("_") or n in CFG.get("not_mutators", []):
+                    continue
+                owner, fdef = an.resolve(cname, n, "funcs")
+            if fdef is None:
+                continue
+            decos = [ast.unparse(d) for d in fdef.decorator_list]
+            if "staticmethod" in decos or "classmethod" in decos:
+                continue
+            eff = an.effects(cname, owner.name, fdef, {}, top=True)
+            if eff.writes or eff.bumps or eff.resets:
+                mutators[n] = {"writes": sorted(eff.writes), "bumps": sorted(eff.bumps),
+                               "resets": sorted(eff.resets), "owner": owner.name,
+                               "calls": sorted(eff.calls)}
+        self._pm[cname] = mutators
+        return mutators
+
+    def owned_spec(self, comp):
+        """the owned component as the owner's key sees it — derived from the owned class's own
+        source: the counters of its `__cache_state__` (`Cached.__hash__` of the owner hashes the
+        owned object, i.e. that tuple), its public mutators and which of these counters each
+        bumps.  translate/fields_C01.json only names the component and its class."""
+        if comp in self._os:
+            return self._os[comp]
+        spec = CFG["owned"][comp]
+        ocls = spec.get("class")
+        if ocls not in self.classes:
+            r = {"class": ocls, "state": list(spec.get("state", [])),
+                 "mutators": list(spec.get("mutators", [])), "bumps": dict(spec.get("bumps", {}))}
+        else:
+            self._os[comp] = {"class": ocls, "state": [], "mutators": [], "bumps": {}}
+            state = [c for c in self.cache_state(ocls) if _isctr(c)]
+            muts = self.public_mutators(ocls)
+            r = {"class": ocls, "state": state, "mutators": sorted(muts),
+                 "bumps": {m: [c for c in muts[m]["bumps"] if c in state] for m in muts}}
+        self._os[comp] = r
+        return r
 
     # ---- cache key ---------------------------------------------------------
     def cache_state(self, cname, start=None):
@@ -708,42 +775,20 @@ def build_tables():
                     progress = True
         for m in methods.values():
             m.pop("_def", None)
-        mutators = {}
-        names = set()
-        for c in mro:
-            ci = classes.get(c)
-            if ci is None:
-                continue
-            for n in list(ci.funcs) + ["set:" + s for s in ci.setters]:
-                names.add(n)
-        for n in sorted(names):
-            if n.startswith("set:"):
-                owner, fdef = an.resolve(cname, n[4:], "setters")
-                if n[4:].startswith("_"):
-                    continue
-            else:
-                if n.startswith("_") or n in CFG.get("not_mutators", []):
-                    continue
-                owner, fdef = an.resolve(cname, n, "funcs")
-            if fdef is None:
-                continue
-            decos = [ast.unparse(d) for d in fdef.decorator_list]
-            if "staticmethod" in decos or "classmethod" in decos:
-                continue
-            eff = an.effects(cname, owner.name, fdef, {}, top=True)
-            if eff.writes or eff.bumps or eff.resets:
-                mutators[n] = {"writes": sorted(eff.writes), "bumps": sorted(eff.bumps),
-                               "resets": sorted(eff.resets), "owner": owner.name,
-                               "calls": sorted(eff.calls)}
+        mutators = dict(an.public_mutators(cname))
         # mutators of owned objects reachable through a key component
+        owned_state = {}
         for comp, spec in CFG["owned"].items():
             if comp in key or any(comp in m["reads"] for m in methods.values()):
-                for mut in spec.get("mutators", []):
+                osp = an.owned_spec(comp)
+                owned_state[comp] = osp["state"]
+                for mut in osp["mutators"]:
                     mutators[f"{comp}.{mut}"] = {
                         "writes": [comp + ".content"],
-                        "bumps": [comp + "." + c for c in spec.get("bumps", {}).get(mut, [])],
+                        "bumps": [comp + "." + c for c in osp["bumps"].get(mut, [])],
                         "resets": [], "owner": spec.get("class", "?")}
         out[cname] = {"mro": mro, "key": key, "methods": methods, "mutators": mutators,
+                      "owned_state": owned_state,
                       "order": topo_order(methods), "maxsize": lru_maxsize(classes)}
     return out
 
@@ -813,8 +858,9 @@ def to_lean(tables, modes=None):
             for comp in m["key"]:
                 comps.append(comp)
                 if comp in CFG["owned"]:
-                    comps += [comp + "." + c for c in CFG["owned"][comp].get("state", [])]
-            isctr = lambda c: c.split(".")[-1].startswith("_mut_") or c in CFG.get("counters_by_value", [])  # noqa
+                    comps += [comp + "." + c for c in t.get("owned_state", {}).get(
+                        comp, CFG["owned"][comp].get("state", []))]
+            isctr = _isctr
             ctrs = [c for c in comps if isctr(c)]
             flds = [c for c in comps if not isctr(c)]
             reads = set(m["reads"])
